@@ -8,7 +8,7 @@ from gen import B, M
 PID = 'C07'
 LEVEL = 'exploration'
 VARIANTS = {'quick': ['asan', 'plain'], 'thorough': ['asan', 'plain', 'asan-tdbg']}
-RULE = ('operand pairs over sizes 1..30 limbs in pairs, sizes around MATRIX22_STRASSEN/HGCD/HGCD_APPR/GCD_DC/GCDEXT_DC (and '
+RULE = ('[huge class: operands of 3x..6x HGCD_REDUCE_THRESHOLD limbs (all-ones A over random B, all-ones B under random A, 2^k-c pairs, long runs) with the hgcd_matrix_apply fold carries of A and of B required through hooks 60..67] operand pairs over sizes 1..30 limbs in pairs, sizes around MATRIX22_STRASSEN/HGCD/HGCD_APPR/GCD_DC/GCDEXT_DC (and '
         'HGCD_REDUCE in thorough) of the variant\'s table, size differences 0,1,2,half,all; value modes: random, equal, multiple, '
         'huge common factor, powers of two and odd*2^k, consecutive Fibonacci numbers, continued fractions with prescribed '
         'quotient sequences (all ones, one huge quotient, quotients B-1,B,B+1), |b|=2g, b|a, zeros, all signs. Oracles: math.gcd; '
